@@ -89,12 +89,12 @@ def build_table_of_content(node: nodes.Node, depth: int, level: int = 0) -> Opti
         entrytext = _copy_and_filter(title)
         reference = nodes.reference('', '', refid=section['ids'][0],
                                     *entrytext)
-        ref_id = node.document.set_id(reference,
-                                    suggested_prefix='toc-entry')
+        # The titles are not linked back to the entries: the table of contents is computed
+        # independently of the presentation of the docstring (and not always shown),
+        # so the docstring's document must be left as it is.
+        node.document.set_id(reference, suggested_prefix='toc-entry')
         entry = nodes.paragraph('', '', reference)
         item = nodes.list_item('', entry)
-        if title.next_node(nodes.reference) is None:
-            title['refid'] = ref_id
         if level < depth:
             subsects = build_table_of_content(section, depth=depth, level=level)
             item += subsects or []
